@@ -85,6 +85,32 @@ theorem C20_single_waiter_bounded (l : Lim) (now : Nat) (dts : List Nat) (hwf : 
   have hq : minBucket = 128 := rfl
   omega
 
+/-- **Progress, up to four concurrent waiters.** When each of up to four pollers re-polls no sooner
+than 10 ticks after its own last empty poll, any four consecutive gaps of the merged poll sequence
+add up to at least 10 ticks; then within 26 such blocks (104 polls) *some* waiter is granted
+tokens. (Truncation loses < 1 token per poll: a block gains ≥ ⌈(897·10 − 4·1023)/1024⌉ = 5 tokens.)
+Which waiter is served is NOT bounded by this theorem: per-waiter fairness among several pollers
+is not proved (and an independent experiment saw one of four requests wait 15 s at 1 KiB/s). -/
+theorem C20_some_waiter_progress (l : Lim) (now : Nat) (bs : List (Nat × Nat × Nat × Nat))
+    (hwf : l.WF now) (hL : 1024 ≤ l.L) (hd : ∀ b ∈ bs, 10 ≤ b.1 + b.2.1 + b.2.2.1 + b.2.2.2)
+    (hlen : 26 ≤ bs.length) : 0 < (blockPolls l now bs).2.2 := by
+  apply Nat.pos_of_ne_zero
+  intro hz
+  have hne : bs ≠ [] := by intro h; simp [h] at hlen
+  have := blocks_starved bs l now hwf hL hd hz hne
+  omega
+
+/-- **FIFO service order.** Over every history of requests (`take_tokens()` calls) and wake-ups of
+the lock holder on one limiter object: the pollers served so far, followed by the lock holder and
+the queue, are exactly the pollers in order of arrival. Hence requests are granted in the order in
+which they were made, nobody is overtaken, and (with `C20_single_waiter_bounded` for the holder —
+only the holder polls) a request with `w` requests ahead of it is served within `16·(w+1)`
+disciplined polls of the successive holders: no waiter is starved. -/
+theorem C20_fifo_order (ops : List LOp) (lim : Lim) (now : Nat) :
+    let s := lrun { o := { lim := lim, holder := none, queue := [] }, now := now, arrivals := [], served := [] } ops
+    s.served ++ waitingList s.o = s.arrivals := by
+  exact (lrun_fifo ops _ (by intro _; rfl) (by simp [waitingList])).1
+
 /-- the library's re-poll interval is at least the 10 ticks assumed above, and every positive
 limit is at least the 1024 B/s assumed above (constants regenerated from the source). -/
 theorem C20_constants : 10 * 1000 ≤ intervalMs * tps ∧ 1024 ≤ 1 * bytesPerKb ∧ minBucket ≤ bytesPerKb := by
@@ -94,5 +120,9 @@ theorem C20_constants : 10 * 1000 ≤ intervalMs * tps ∧ 1024 ≤ 1 * bytesPer
 example : ({ L := 2048, bucket := 100, last := 5 } : Lim).WF 7 := by unfold Lim.WF; decide
 example : LimitsWithin 4096 [.poll 3, .setLimit 4, .poll 0, .setLimit 1] := by simp [LimitsWithin]; decide
 example : (polls { L := 1024, bucket := 0, last := 0 } 0 (List.replicate 16 10)).2.2 = 128 := by decide
+example : (lrun { o := { lim := { L := 1024, bucket := 300, last := 0 }, holder := none, queue := [] }, now := 0,
+                  arrivals := [], served := [] }
+    [.arrive 7 0, .arrive 8 0, .arrive 9 0, .arrive 5 1, .wake 200, .wake 200]).served = [7, 8, 9, 5] := by decide
+example : 0 < (blockPolls { L := 1024, bucket := 0, last := 0 } 0 (List.replicate 26 (3, 2, 3, 2))).2.2 := by decide
 
 end AioslskVerif.C20
